@@ -117,12 +117,18 @@ def make_body(scn):
             except Exception as e:  # noqa
                 res["usend"] = "raised %s" % type(e).__name__
         th = vthreading.Thread(target=rekey)
-        th.start()
         ut = None
         if user_send:
+            # the user thread races the start of the exchange: every schedule within the delay bound
             ut = vthreading.Thread(target=usend)
-            ut.start()
-        s.quiesce()
+            s.branching = True
+            ut.start()         # default schedule: the sender goes first; one delay lets the exchange start
+            th.start()         # at any point inside the sender's _send_user_message
+            s.quiesce()
+            s.branching = False
+        else:
+            th.start()
+            s.quiesce()
         order = []
         rounds = 0
         while True:
@@ -284,12 +290,12 @@ def run_items(items, acc):
                                "tx_peer": [F.mname(t) for t in obs["tx_p"]], "exc": (obs["exc_i"], obs["exc_p"]),
                                "effects": obs["effects"], "elapsed_virtual_s": round(obs["elapsed"], 1)},
                               {"scn": scn, "choices": ex.choices})
-        res = explore.explore(body, 0, "delay", cap=1200, on_exec=on_exec,
+        res = explore.explore(body, 1 if scn[2] else 0, "delay", cap=4000, on_exec=on_exec,
                               sched_kw={"horizon": S.EPOCH + 400, "step_budget": 3_000_000})
         acc.count("scenarios")
         acc.count("crossing_orders", res.executions)
         if res.capped:
-            acc.note("cap 1200 hit %r" % (scn,))
+            acc.note("cap 4000 hit %r" % (scn,))
         if len(acc.samples) < 3 and len(orders) > 3:
             acc.sample({"initiator": scn[0], "in_flight": list(scn[1]), "user_send": scn[2], "keepalive": scn[3],
                         "crossing_orders": res.executions, "an_order": list(sorted(orders)[len(orders) // 2])})
